@@ -34,6 +34,7 @@ from mashumaro.mixins.orjson import DataClassORJSONMixin
 
 class NoopDialect(Dialect):
     pass
+type OptI = int | None
 def c05_tagger(cls):
     # variant_tagger_fn: every subclass is registered under two tags derived from its name
     sfx = cls.__name__.rsplit("V", 1)[1]
@@ -171,10 +172,12 @@ POOL = [
       [{"kind": "v1"}, {"kind": "v2", "s": "t"}], "Var1", factory=True),
     T("Shape", [{"type": "circle", "r": 2}, {"type": "rect", "w": 1}], "Circle", factory=True),
     T("None", [None], "None", nullable=True),
+    # PEP 695 alias: probe only (weight 0; its rendered name must be bound in the generated error paths, fix 3dfbd5e)
+    T("OptI", [None, 3], "5", nullable=True),
 ]
 POOL_BY_EXPR = {t.expr: t for t in POOL}
 WEIGHTS = [6, 2, 2, 3, 4, 1, 2, 1, 2, 1, 1, 4, 3, 2, 4, 2, 1, 2, 3, 1, 1, 3, 1, 1, 1, 3, 2, 2, 3, 2, 1, 3,
-           4, 1, 1, 2, 2, 1, 2, 1, 1]
+           4, 1, 1, 2, 2, 1, 2, 1, 1, 0]
 assert len(WEIGHTS) == len(POOL)
 
 JUNK = ["zz", "", 5, -1.5, True, None, [1], ["a"], {"a": 1}, {}, [], "2020-13-45", [1, "a", 3], [[1]],
